@@ -807,8 +807,8 @@ func (e *Engine) havocLoopTargets(st *State, body ast.Node, extra ...ast.Node) {
 		e.assumeFrameMem(st)
 	}
 	if maps {
-		for k, v := range st.ghost {
-			st.ghost[k] = e.fresh("g_"+k+"_loop", v.sort)
+		for _, k := range sortedTKeys(st.ghost) {
+			st.ghost[k] = e.fresh("g_"+k+"_loop", st.ghost[k].sort)
 		}
 		e.assumeFrameMaps(st)
 	}
@@ -832,8 +832,8 @@ func (e *Engine) havocHeap(st *State, why string) {
 	st.Mem = e.fresh("Mem_"+why, SHeap)
 	st.alloc = e.fresh("alloc_"+why, SInt)
 	e.assume(st, Ge(st.alloc, oldAlloc), "allocation pointer is monotone")
-	for k, v := range st.ghost {
-		st.ghost[k] = e.fresh("g_"+k+"_"+why, v.sort)
+	for _, k := range sortedTKeys(st.ghost) {
+		st.ghost[k] = e.fresh("g_"+k+"_"+why, st.ghost[k].sort)
 	}
 }
 
